@@ -307,3 +307,160 @@ def c11_gtf_iterate_pointer(shape: int, lens: List[int], ncomment: int) -> int:
     post: _ >= 0
     """
     return _gtf_pointers(shape, lens, ncomment)
+
+
+# --------------------------------------------------------------------------
+# whole annotation: GtfIO.write -> GenomicAnnotation.dump_gtf (real StringIO)
+# --------------------------------------------------------------------------
+def _file_roundtrip(gs, ge, strand, exons, cs, ce, frame, coding, with_sec):
+    import io
+    from moPepGen import gtf
+    from mpgverif.harness.annobuild import anno_one_gene, exons_valid, tx_index_oracle
+    if not exons_valid(gs, ge, exons):
+        return SKIP
+    if not exons[0][0] <= cs < ce <= exons[-1][1]:
+        return SKIP
+    cds, utr = [], []
+    for s, e in exons:
+        a, b = max(s, cs), min(e, ce)
+        if a < b:
+            cds.append((a, b))
+        if s < cs:
+            utr.append((s, min(e, cs)))
+        if e > ce:
+            utr.append((max(s, ce), e))
+    if not cds:
+        return SKIP
+    frames = [0] * len(cds)
+    frames[0 if strand == 1 else -1] = frame
+    sec = None
+    if with_sec:
+        a, b = cds[0]
+        if b - a < 3:
+            return SKIP
+        sec = [(a, a + 3)]
+    anno = anno_one_gene(gs, ge, strand, exons, cds=cds, cds_frames=frames, sec=sec, coding=coding,
+                         tags=['basic', 'cds_start_NF'])
+    tm = anno.transcripts['T1']
+    tm.utr = [feat('chr1', s, e, strand, 'UTR', dict(tm.transcript.attributes)) for s, e in utr]
+    tm.sort_records()
+    handle = io.StringIO()
+    GtfIO.write(handle, anno)
+    handle.seek(0)
+    back = gtf.GenomicAnnotation()
+    back.dump_gtf(handle, source='GENCODE')
+    if set(back.genes) != {'G1'} or set(back.transcripts) != {'T1'}:
+        return -1
+    g, t = back.genes['G1'], back.transcripts['T1']
+    if (g.location.start, g.location.end, g.location.strand) != (gs, ge, strand) or g.transcripts != ['T1']:
+        return -2
+    if (t.transcript.location.start, t.transcript.location.end) != (exons[0][0], exons[-1][1]):
+        return -3
+
+    def ivs(lst):
+        return [(f.location.start, f.location.end, f.location.strand) for f in lst]
+
+    for name in ('exon', 'cds', 'utr', 'five_utr', 'three_utr', 'selenocysteine'):
+        if ivs(getattr(t, name)) != ivs(getattr(tm, name)):
+            return -4              # a feature list of the transcript model changed
+    if [c.frame for c in t.cds] != [c.frame for c in tm.cds]:
+        return -5
+    if t.is_protein_coding != coding:
+        return -6
+    if t.transcript.attributes.get('tag') != ['basic', 'cds_start_NF'] or not t.is_cds_start_nf():
+        return -7
+    if t.gene_id != 'G1' or t.transcript_id != 'T1':
+        return -8
+    return OK
+
+
+CODES_F = {-1: 'set of genes / transcripts changed', -2: 'gene model changed', -3: 'transcript span changed',
+           -4: "a feature list (exon / CDS / UTR / 5'UTR / 3'UTR / Sec) of the transcript model changed",
+           -5: 'CDS frames changed', -6: 'is_protein_coding changed', -7: 'tags changed', -8: 'ids changed'}
+
+
+FILE_ENC = ['moPepGen.gtf.GtfIO.write / to_gtf_record / GtfIterator / line_to_seq_feature',
+            'moPepGen.gtf.GenomicAnnotation.dump_gtf / add_gene_record / add_transcript_record',
+            'moPepGen.gtf.TranscriptAnnotationModel.add_record / sort_records / split_utr']
+FILE_B = ('annotation of 1 gene / 1 transcript with 2 exons, all coordinates symbolic < 59000, strand symbolic, tags; '
+          'written with GtfIO.write into a real StringIO and parsed back with GenomicAnnotation.dump_gtf; ')
+
+
+@cond('C11', bounds=FILE_B + 'CDS from inside exon 1 to inside exon 2 (both UTRs present), frame 0..2, coding flag symbolic',
+      codes=CODES_F, tokens=True, encodes=FILE_ENC, timeout=400)
+def c11_gtf_file_roundtrip_span(gs: int, ge: int, plus: bool, a0: int, b0: int, a1: int, b1: int, cs: int,
+                                ce: int, frame: int, coding: bool) -> int:
+    """
+    pre: 0 <= gs and ge < 59000
+    pre: 0 <= frame <= 2
+    pre: a0 < cs < b0 and a1 < ce < b1
+    post: _ >= 0
+    """
+    return _file_roundtrip(gs, ge, 1 if plus else -1, [(a0, b0), (a1, b1)], cs, ce, frame, coding, False)
+
+
+@cond('C11', bounds=FILE_B + 'CDS inside exon 1 only, starting at the exon start (no UTR on that side), with a Sec codon',
+      codes=CODES_F, tokens=True, encodes=FILE_ENC, timeout=400)
+def c11_gtf_file_roundtrip_sec(gs: int, ge: int, plus: bool, a0: int, b0: int, a1: int, b1: int,
+                               ce: int, frame: int) -> int:
+    """
+    pre: 0 <= gs and ge < 59000
+    pre: 0 <= frame <= 2
+    pre: a0 + 3 <= ce < b0
+    post: _ >= 0
+    """
+    return _file_roundtrip(gs, ge, 1 if plus else -1, [(a0, b0), (a1, b1)], a0, ce, frame, True, True)
+
+
+@cond('C11', bounds=FILE_B + 'CDS = both exons entirely (no UTR)', codes=CODES_F, tokens=True, encodes=FILE_ENC,
+      timeout=400)
+def c11_gtf_file_roundtrip_full(gs: int, ge: int, plus: bool, a0: int, b0: int, a1: int, b1: int,
+                                frame: int, coding: bool) -> int:
+    """
+    pre: 0 <= gs and ge < 59000
+    pre: 0 <= frame <= 2
+    post: _ >= 0
+    """
+    return _file_roundtrip(gs, ge, 1 if plus else -1, [(a0, b0), (a1, b1)], a0, b1, frame, coding, False)
+
+
+@cond('C11', bounds='annotation of 2 genes on opposite strands: G1 with transcripts T1 (2 exons) and T2 (1 exon), G2 with T3 '
+      '(1 exon); all coordinates symbolic < 59000 (genes may overlap); written with GtfIO.write, parsed back with dump_gtf',
+      codes=CODES_F, tokens=True, encodes=FILE_ENC, timeout=400)
+def c11_gtf_file_roundtrip_multi(gs: int, ge: int, plus: bool, a0: int, b0: int, a1: int, b1: int, c0: int,
+                                 c1: int, hs: int, he: int, d0: int, d1: int) -> int:
+    """
+    pre: 0 <= gs and ge < 59000 and 0 <= hs and he < 59000
+    post: _ >= 0
+    """
+    import io
+    from moPepGen import gtf
+    from mpgverif.harness.annobuild import anno_multi, exons_valid, gene_model, tx_model
+    strand = 1 if plus else -1
+    ex = {'T1': [(a0, b0), (a1, b1)], 'T2': [(c0, c1)], 'T3': [(d0, d1)]}
+    if not exons_valid(gs, ge, ex['T1']) or not exons_valid(gs, ge, ex['T2']) or not exons_valid(hs, he, ex['T3']):
+        return SKIP
+    anno = anno_multi(gs, ge, strand, [ex['T1'], ex['T2']])
+    anno.genes['G2'] = gene_model('G2', 'chr1', hs, he, -strand, ['T3'])
+    anno.transcripts['T3'] = tx_model('T3', 'G2', 'chr1', -strand, ex['T3'])
+    handle = io.StringIO()
+    GtfIO.write(handle, anno)
+    handle.seek(0)
+    back = gtf.GenomicAnnotation()
+    back.dump_gtf(handle, source='GENCODE')
+    if set(back.genes) != {'G1', 'G2'} or set(back.transcripts) != {'T1', 'T2', 'T3'}:
+        return -1
+    for gid, span, txs, st in (('G1', (gs, ge), ['T1', 'T2'], strand), ('G2', (hs, he), ['T3'], -strand)):
+        g = back.genes[gid]
+        if (g.location.start, g.location.end, g.location.strand) != span + (st,) or g.transcripts != txs:
+            return -2
+    for tid, exons in ex.items():
+        t = back.transcripts[tid]
+        st = -strand if tid == 'T3' else strand
+        if [(f.location.start, f.location.end, f.location.strand) for f in t.exon] != [(s, e, st) for s, e in exons]:
+            return -4
+        if (t.transcript.location.start, t.transcript.location.end) != (exons[0][0], exons[-1][1]):
+            return -3
+        if t.gene_id != ('G2' if tid == 'T3' else 'G1') or t.cds or t.utr or t.selenocysteine:
+            return -8
+    return OK
